@@ -83,10 +83,14 @@ mod verif_plankey {
     /// validation of the request. Key: arbitrary ids of concrete length K (CachedPlan::new sorts
     /// them; symbolic-length sorts do not finish in CBMC). Request: symbolic length <= R.
     ///
+    /// The cached key went through `create_plan`, hence is duplicate-free (assumed, witnessed by
+    /// the covers).
+    ///
     /// accepts_only_key_ids: hit => same number of ids and every requested id is a key id
     ///   (so unknown / operator / non-value ids can never ride on a cached plan).
     fn check_only_key_ids<const K: usize, const R: usize>(on_inputs: bool) {
         let key: [NodeId; K] = any_ids();
+        kani::assume(!has_dup(&key));
         let other: [NodeId; 1] = any_ids();
         let req: [NodeId; R] = any_ids();
         let n: usize = kani::any();
@@ -104,7 +108,7 @@ mod verif_plankey {
             assert!(subset(req, &key), "cache hit for an id that is not in the cached key");
         }
         kani::cover!(hit);
-        kani::cover!(!hit && n == K);
+        kani::cover!(!hit && n > 0);
     }
 
     /// accepts_only_permutations: the cached key went through `create_plan`, hence is
